@@ -27,6 +27,9 @@ func runC37(p *Prog, r *Report) {
 	// a pipelined work item is shared with the connection goroutines from the moment it is queued until its completion
 	// is received: giving it back to the pool in between hands it to the next caller while they still use it
 	runPipelineCaller(p, r, "C37")
+	// a connection's buffered reader goes back to the shared pool between requests only when no body stream handed to
+	// a handler still reads through it: otherwise two connection goroutines use one bufio.Reader (shared with C02.R5)
+	readerReleaseRule(p, r, "C37")
 	tbl := &lockTable{
 		guards: map[string]string{
 			// worker pool
